@@ -45,4 +45,16 @@ PROPS = {
         "assumptions": [],
         "trusted_base": [],
     },
+    "C19": {
+        "level": "proof",
+        "n": {"quick": 3000, "thorough": 200000},
+        "gen_needs": ["Gen_thrift"],
+        "assumptions": [
+            "the writer side (malloc + binary.BigEndian.Put*) is not translated by go2coq (aliasing writes); it is tied by differential runs",
+            "message type is one byte (0..255), method name shorter than 2^31 in unwrap_wrap",
+            "WriteAnyWithDesc/ReadAnyWithDesc are not covered yet (only the descriptor-free WriteAny/ReadAny)",
+        ],
+        "trusted_base": [],
+        "level_text": "Coq proofs: decode(encode v ++ r) = (v, r) and skip advances by exactly |encode v| for every well-formed value of every shape and depth (model of SkipGo incl. its fixed-size fast paths), unwrap(wrap ...) returns name/type/seq/id/body with header++body++footer = wrap, and the model's leaf tables equal the definitions generated from thrift/*.go (typeSize, Type.Valid/IsInt/IsComplex, big-endian decoders). Correspondence: writer/reader for all scalar kinds, strings, SkipGo and SkipNative cursors on generated/truncated/corrupted values, envelopes, WriteAny/ReadAny round trips.",
+    },
 }
